@@ -3,6 +3,7 @@ package eng
 import (
 	"fmt"
 	"math/big"
+	"os"
 	"sort"
 	"strings"
 	"sync"
@@ -27,6 +28,7 @@ type RunConfig struct {
 	Workers       int
 	SolverBin     string
 	KeepScripts   int // number of assertion scripts kept for cross-solver checks
+	Fallback      string // solver used to re-decide assertion queries the primary solver answers unknown
 	ExpectReach   []string
 	Stubs         map[string]string // real function name -> harness function name
 	Havoc         []string          // package path prefixes whose functions return zero values
@@ -149,6 +151,7 @@ type Stats struct {
 	Truncated                      bool
 	Observes                       [][]string
 	LabelsDischarged               map[string]int
+	FallbackQueries, FallbackDecided int
 }
 
 type Explorer struct {
@@ -198,7 +201,7 @@ func (e *Explorer) Run() *Stats {
 }
 
 func (e *Explorer) worker(t0 time.Time) {
-	sol, err := NewSolver(e.cfg.SolverBin, e.cfg.QueryTimeout, e.cfg.KeepScripts > 0)
+	sol, err := NewSolver(e.cfg.SolverBin, e.cfg.QueryTimeout, true)
 	if err != nil {
 		e.mu.Lock()
 		e.st.Aborts["solver-start"]++
@@ -687,6 +690,24 @@ func (in *Interp) assert(cond *Term, label string) {
 		res, m = p.check(nil, true)
 	} else {
 		res, m = p.check(neg, true)
+	}
+	if res == Unknown && ex.cfg.Fallback != "" {
+		var script string
+		if cond.IsFalse() {
+			script = p.sol.Script(nil)
+		} else {
+			script = p.sol.Script(neg)
+		}
+		res, m = RunScriptModel(ex.cfg.Fallback, script, p.sol.Vars(), ex.cfg.QueryTimeout*3)
+		if d := os.Getenv("GOSE_DUMP_UNKNOWN"); d != "" && res == Unknown {
+			os.WriteFile(fmt.Sprintf("%s/unk-%d.smt2", d, time.Now().UnixNano()), []byte(script), 0o644)
+		}
+		ex.mu.Lock()
+		ex.st.FallbackQueries++
+		if res != Unknown {
+			ex.st.FallbackDecided++
+		}
+		ex.mu.Unlock()
 	}
 	ex.mu.Lock()
 	switch res {
